@@ -48,6 +48,8 @@ def run(ctx):
     r3_copy_before_mutate(ctx)
     r4_fresh_rng(ctx, fam)
     r5_cache_copies(ctx)
+    r6_replay_buffer(ctx)
+    r7_held_learners(ctx, fam)
 
 
 def family(ctx):
@@ -130,8 +132,8 @@ def _aliases(e):
     return set()
 
 
-def r1_iterator_escape(ctx, fam):
-    ctx.rule("C04.R1", "no one-shot iterator (zip/map/iter/generator expression ...) is stored -- directly or through a "
+def r1_iterator_escape(ctx, fam, rule="C04.R1", only=None):
+    ctx.rule(rule, "no one-shot iterator (zip/map/iter/generator expression ...) is stored -- directly or through a "
                        "constructor that keeps its argument -- in an object that outlives a read")
     m = ctx.model
     keepers = {}  # class key -> set of ctor param positions/names stored on self
@@ -148,6 +150,8 @@ def r1_iterator_escape(ctx, fam):
             keepers[c.key] = (params, kept)
     n = 0
     for key, c in fam.items():
+        if only is not None and c.name not in only:
+            continue
         for mname, fn in c.methods.items():
             if mname in ("read", "filter") or mname.startswith("_") and mname != "__init__":
                 continue
@@ -172,11 +176,11 @@ def r1_iterator_escape(ctx, fam):
                                 for k in v.keywords:
                                     if k.arg in kept and is_iterator_expr(k.value, fn):
                                         bad, why = True, f"{res[1]}(...) keeps its argument and is given a one-shot iterator"
-                    ctx.ob("C04.R1", c.rel, qual, x, "long-lived state does not hold a one-shot iterator", not bad,
+                    ctx.ob(rule, c.rel, qual, x, "long-lived state does not hold a one-shot iterator", not bad,
                            detail={"why": why} if bad else None)
     # static constructors of Environments
     envs = ctx.model.cls("coba/environments/core.py", "Environments")
-    for mname, fn in envs.methods.items():
+    for mname, fn in (envs.methods.items() if only is None else []):
         for x in walk_shallow(fn):
             if isinstance(x, ast.Call):
                 res = m.resolve_in(envs.module, x.func, "Environments")
@@ -185,8 +189,9 @@ def r1_iterator_escape(ctx, fam):
                     n += 1
                     bad = any(i < len(params) and params[i] in kept and is_iterator_expr(a, fn) for i, a in enumerate(x.args)) or \
                         any(k.arg in kept and is_iterator_expr(k.value, fn) for k in x.keywords)
-                    ctx.ob("C04.R1", envs.rel, "Environments." + mname, x, "source objects are built from re-iterable inputs", not bad)
-    ctx.floor("C04.R1", "self-state stores / source constructions examined", n, 60)
+                    ctx.ob(rule, envs.rel, "Environments." + mname, x, "source objects are built from re-iterable inputs", not bad)
+    if only is None:
+        ctx.floor(rule, "self-state stores / source constructions examined", n, 60)
 
 
 # ------------------------------------------------------------------------------------------ R2
@@ -309,13 +314,15 @@ def read_path_methods(ctx, c):
     return out
 
 
-def r2_cross_read_state(ctx, fam):
-    ctx.rule("C04.R2", "every write to self state on a read path is write-only, a first-time memo, a temporary rewrite "
+def r2_cross_read_state(ctx, fam, rule="C04.R2", only=None):
+    ctx.rule(rule, "every write to self state on a read path is write-only, a first-time memo, a temporary rewrite "
                        "restored in a finally that covers its yields, or a tabled by-design replay buffer")
     per_read = per_read_classes(ctx)
     n = 0
     for key, c in fam.items():
         if key in per_read:
+            continue
+        if only is not None and c.name not in only:
             continue
         for mname, fn in read_path_methods(ctx, c).items():
             qual = c.qual + "." + mname
@@ -342,9 +349,10 @@ def r2_cross_read_state(ctx, fam):
                         verdict, why = False, "temporary rewrite whose restoring store is not in a finally covering the yields (an abandoned read leaves the rewritten value)"
                     else:
                         verdict, why = False, "state written on a read path and read later: a second / abandoned read can observe it"
-                ctx.ob("C04.R2", c.rel, qual, nodes[0], f"write to self.{attr} on a read path is not cross-read state", verdict,
+                ctx.ob(rule, c.rel, qual, nodes[0], f"write to self.{attr} on a read path is not cross-read state", verdict,
                        detail={"classification": why, "writes": [k for _, k in ws]}, stmt=f"self.{attr} <- " + norm_stmt(nodes[0]))
-    ctx.floor("C04.R2", "self-state writes on read paths", n, 8)
+    if only is None:
+        ctx.floor(rule, "self-state writes on read paths", n, 8)
 
 
 # ------------------------------------------------------------------------------------------ R3
@@ -772,7 +780,75 @@ def r5_cache_copies(ctx):
         ctx.ob("C04.R5", EF, "Cache.filter", y, "cached interactions are copied before they are handed out", ok)
 
 
+# ------------------------------------------------------------------------------------------ R6
+def r6_replay_buffer(ctx):
+    """pipes.Cache is the one by-design cross-read state: its protocol must keep 'buffer + saved iterator' equal to the source."""
+    ctx.rule("C04.R6", "pipes.Cache: items are appended to the buffer before they are handed out, and the saved iterator is dropped "
+                       "(= 'buffer complete') only on the path where the source was exhausted -- never on an abandoned or failing read")
+    from ..cfg import CFG
+    fn = ctx.fn(PF, "Cache.filter")
+    g = CFG(fn)
+    reach = g.reachable()
+    done = [n.id for n in g.nodes if n.id in reach and n.kind == "stmt" and isinstance(n.ast, ast.Assign) and any(is_self_attr(t, "_iter") for t in n.ast.targets)
+            and isinstance(n.ast.value, ast.Constant) and n.ast.value.value is None]
+    ctx.floor("C04.R6", "'buffer complete' stores in pipes.Cache.filter", len(done), 1)
+    # nodes reachable after taking an abandon / exception edge
+    after_abnormal = set()
+    todo = []
+    for a in reach:
+        for b, l in g.succ[a]:
+            if l in ("abandon", "exc") and b not in after_abnormal:
+                after_abnormal.add(b)
+                todo.append(b)
+    while todo:
+        a = todo.pop()
+        for b, l in g.succ[a]:
+            if b not in after_abnormal:
+                after_abnormal.add(b)
+                todo.append(b)
+    for d in done:
+        ctx.ob("C04.R6", PF, "Cache.filter", g.nodes[d].ast, "the buffer is marked complete only after the source iterator was exhausted (not when a read is abandoned or fails)",
+               d not in after_abnormal, detail=None if d not in after_abnormal else {"note": "reachable after an abandon/exception edge (e.g. inside a finally)"})
+        # and it is preceded by the exhaustion of the while loop
+        wl = [x for x in walk_shallow(fn) if isinstance(x, ast.While) and "islice(self._iter" in unparse(x.test)]
+        ok = len(wl) == 1 and g.nodes[d].ast.lineno > wl[0].end_lineno and not any(isinstance(x, ast.Break) for x in walk_shallow(wl[0]))
+        ctx.ob("C04.R6", PF, "Cache.filter", g.nodes[d].ast, "completion follows the loop that drains the saved iterator (which has no break)", ok, stmt="complete after drain loop")
+    for lp in [x for x in walk_shallow(fn) if isinstance(x, ast.While)]:
+        ext = [x for x in lp.body if isinstance(x, ast.Expr) and isinstance(x.value, ast.Call) and unparse(x.value.func) == "self._cache.extend"]
+        ys = [x for x in lp.body if isinstance(x, ast.Expr) and isinstance(x.value, (ast.Yield, ast.YieldFrom))]
+        ok = len(ext) == 1 and len(ys) == 1 and lp.body.index(ext[0]) < lp.body.index(ys[0]) and unparse(ext[0].value.args[0]) == unparse(ys[0].value.value)
+        ctx.ob("C04.R6", PF, "Cache.filter", lp, "a slice is buffered before it is yielded (an abandoned read loses nothing that was taken from the source)", ok, stmt="buffer before yield")
+    first_iter = [x for x in walk_shallow(fn) if isinstance(x, ast.Assign) and any(is_self_attr(t, "_iter") for t in x.targets) and unparse(x.value) == "iter(items)"]
+    ok = len(first_iter) == 1 and any("self._iter is None and self._cache is None" == unparse(t) and p for t, p in guards_of(first_iter[0], fn))
+    ctx.ob("C04.R6", PF, "Cache.filter", first_iter[0] if first_iter else fn, "the source is opened once, on the very first read", ok, stmt="open source once")
+
+
+# ------------------------------------------------------------------------------------------ R7
+def r7_held_learners(ctx, fam):
+    ctx.rule("C04.R7", "a learner/evaluator object held by a filter (constructor argument) is only ever trained through a deep copy made in the read")
+    n = 0
+    for key, c in fam.items():
+        for mname, fn in read_path_methods(ctx, c).items():
+            for x in walk_shallow(fn):
+                if not (isinstance(x, ast.Call) and call_tail(x) in ("evaluate", "learn", "predict") and isinstance(x.func, ast.Attribute)):
+                    continue
+                cands = list(x.args) + ([x.func.value] if call_tail(x) in ("learn", "predict") else [])
+                for a in cands:
+                    exprs = [a] + (assigned_value(fn, a.id) if isinstance(a, ast.Name) else [])
+                    held = [e for e in exprs for s2 in ast.walk(e) if is_self_attr(s2) and ("learner" in s2.attr or "lrn" in s2.attr)]
+                    if not held:
+                        continue
+                    n += 1
+                    ok = all(isinstance(e, ast.Call) and call_name(e) in ("copy.deepcopy", "deepcopy") for e in exprs if any(is_self_attr(s2) for s2 in ast.walk(e)))
+                    ctx.ob("C04.R7", c.rel, f"{c.qual}.{mname}", x, "the held learner reaches evaluate/learn/predict only as a deepcopy (the caller's object is never trained)", ok,
+                           detail={"argument": [unparse(e) for e in exprs]})
+    ctx.floor("C04.R7", "uses of held learners on read paths", n, 1)
+
+
 CONTROLS = [
+    ("cache complete in finally", PF, M.replace_stmt("Cache.filter", M.simple_has("self._iter = None"), "pass"), "C04.R6") if False else
+    ("yield before buffering", PF, M.swap_stmts("Cache.filter", M.simple_has("self._cache.extend(current)"), M.simple_has("yield from current")), "C04.R6"),
+    ("logged shallow copy", EF, M.replace_expr("Logged.filter", "copy.deepcopy(self._learner)", "copy.copy(self._learner)"), "C04.R7"),
     ("keep iter of source", SUP, M.replace_expr("CsvSource.__init__", "Pipes.join(source, reader)", "iter(Pipes.join(source, reader).read())"), "C04.R1"),
     ("EmptyCheck without memo guard", EF, M.replace_stmt("EmptyCheck.filter", M.text_has("if self._isempty is None"),
         "interactions = peek_first(interactions)[1]\nself._isempty = interactions == []"), "C04.R2"),
